@@ -2,7 +2,7 @@
     Common/Utf8.v and followed by [Print Assumptions]; statements are pinned again in Pins.v.
     Hash functions: NO theorem (no Coq model of MD5/SHA-1/SHA-2/SHA-3); exploration level. *)
 From Coq Require Import List NArith ZArith Bool.
-From JrV Require Import Common.Utf8 C11.Model C11.ProofsFind C11.ProofsStr C11.ProofsNum C11.ProofsB64.
+From JrV Require Import Common.Utf8 C11.Model C11.ProofsFind C11.ProofsStr C11.ProofsNum C11.ProofsB64 C11.ProofsSplit.
 Import ListNotations.
 
 (** decoding the UTF-8 encoding of any list of Unicode scalar values gives it back *)
@@ -36,14 +36,13 @@ Theorem C11_utf8_injective :
 Proof. exact encode_inj. Qed.
 Print Assumptions C11_utf8_injective.
 
-(** self-synchronisation, byte classes only: the first byte of every encoded character is not a
-    continuation byte and all others are.  FULL statement (not proved): if [encode p] occurs in
-    [encode s] at byte offset k then k is a character boundary of s. *)
-Theorem C11_utf8_selfsync_partial :
+(** self-synchronisation, byte classes (the full statement is C11_utf8_selfsync): the first byte of every encoded character is not a
+    continuation byte and all others are. *)
+Theorem C11_utf8_byte_classes :
   forall c, (c <= 1114111)%N ->
     exists h t, enc1 c = h :: t /\ is_cont h = false /\ forallb is_cont t = true.
 Proof. exact enc1_shape. Qed.
-Print Assumptions C11_utf8_selfsync_partial.
+Print Assumptions C11_utf8_byte_classes.
 
 (** findSubstr's walk over char_indices() with a byte-length bound and byte-slice comparison returns
     exactly the code-point indices of the documented definition, for ALL strings *)
@@ -79,15 +78,13 @@ Proof. exact substr_refines. Qed.
 Print Assumptions C11_substr_spec.
 
 (** laws of the split definition for every limit: joining the pieces with the separator gives the
-    string back, at most n+1 pieces.  FULL statement (not proved): [bsplit s sep lim = map encode
-    (gsplit sep lim s)], i.e. the byte-level search of splitn equals the code-point definition
-    (needs full self-synchronisation); tied by correspondence only. *)
-Theorem C11_split_spec_partial :
+    string back, at most n+1 pieces.  The byte-level refinement is C11_split_refines. *)
+Theorem C11_split_spec :
   forall s sep lim, sep <> [] ->
     exists ps, split_spec s sep lim = Some ps /\ join sep ps = s /\ ps <> [] /\
                (forall n, lim = Some n -> length ps <= S n).
 Proof. exact split_laws. Qed.
-Print Assumptions C11_split_spec_partial.
+Print Assumptions C11_split_spec.
 
 Theorem C11_strReplace_identity :
   forall s from, from <> [] -> replace_spec s from from = Some s.
@@ -164,4 +161,42 @@ Theorem C11_base64_string_roundtrip :
     spec_call (CB64Dec (b64_encode (encode s))) = RStr s.
 Proof. exact b64_call_roundtrip. Qed.
 Print Assumptions C11_base64_string_roundtrip.
+
+(** FULL self-synchronisation: wherever the encoding of a non-empty string occurs inside the encoding
+    of another, it starts at a character boundary and is an occurrence of the code points *)
+Theorem C11_utf8_selfsync :
+  forall s p x y,
+    forallb scalar s = true -> forallb scalar p = true -> p <> [] ->
+    encode s = x ++ encode p ++ y ->
+    exists a b, s = a ++ p ++ b /\ x = encode a /\ y = encode b.
+Proof. exact selfsync. Qed.
+Print Assumptions C11_utf8_selfsync.
+
+(** the leftmost non-overlapping search on the UTF-8 BYTES (str::split / splitn(n+1)) yields exactly
+    the encodings of the pieces of the code-point definition, for every limit *)
+Theorem C11_split_refines :
+  forall s sep lim, sep <> [] ->
+    forallb scalar s = true -> forallb scalar sep = true ->
+    bsplit s sep lim = map encode (gsplit sep lim s).
+Proof. exact bsplit_refines. Qed.
+Print Assumptions C11_split_refines.
+
+(** str::ends_with on the bytes = the substr-based definition on code points *)
+Theorem C11_endsWith_refines :
+  forall a b, forallb scalar a = true -> forallb scalar b = true ->
+    ends_impl a b = ends_spec a b.
+Proof. exact ends_refines. Qed.
+Print Assumptions C11_endsWith_refines.
+
+(** trim_end_matches (scan from the end) = the recursive rstripChars definition *)
+Theorem C11_rstrip_refines :
+  forall chars s, rstrip_impl s chars = rstrip_spec s chars.
+Proof. exact rstrip_refines. Qed.
+Print Assumptions C11_rstrip_refines.
+
+(** trim_matches (start, then end) = lstripChars(rstripChars(s)) *)
+Theorem C11_strip_spec :
+  forall chars s, strip_impl s chars = strip_spec s chars.
+Proof. exact strip_refines. Qed.
+Print Assumptions C11_strip_spec.
 
